@@ -38,10 +38,10 @@ TIERS = dict(
     # the shared 16-core box at load 60-90 sustain 90-140 calls/s
     quick=dict(full=('go', 'public', 'cli'), workers=12, mem_kb=4194304, per_call=20,
                grid={'go': (5, 4, 3), 'public': (5, 4, 3), 'cli': (5, 4, 3), 'internal': (3, 2, 2), 'generated': (3, 2, 2)},
-               frac={'internal': 0.1, 'generated': 0.15}, generated_names=8, opt_budget=500, pairs=False),
+               frac={'internal': 0.1, 'generated': 0.15}, generated_names=8, opt_budget=400, pairs=False),
     thorough=dict(full=('go', 'public', 'cli', 'internal'), workers=12, mem_kb=4194304, per_call=20,
                   grid={'go': (6, 4, 3), 'public': (6, 4, 3), 'cli': (6, 4, 3), 'internal': (6, 4, 3), 'generated': (3, 3, 2)},
-                  frac={'generated': 0.5}, generated_names=None, opt_budget=12000, pairs=True),
+                  frac={'generated': 0.4}, generated_names=None, opt_budget=8000, pairs=True),
 )
 PAIR_POOL = ('null', 'neg1', 'one', 'p64', 'nan', 'str_empty', 'str_a', 'bin_unaligned', 'arr_empty', 'arr_plain', 'obj_plain',
              'opt_unit0', 'opt_indent_neg', 'dv_struct')
